@@ -39,5 +39,13 @@ UNIT = {
             # structure cell exist at run time without the FFI, so no input shows a wrong answer
             ("assert_after_push_pairs", "self.stack", "assert(top2_ok(self.stack@, *self.heap, v1, v2));", (6,))],
          "wrap_pre": "impl ParallelHeapIter<'_> {\n#[verifier::exec_allows_no_decreases_clause]\n#[verifier::loop_isolation(false)]\n", "wrap_post": "}\n"},
+        # ---- the consumer of the iteration (src/machine/machine_state_impl.rs)
+        {"fn": "compare_term_test", "impl": r"impl MachineState", "file": "src/machine/machine_state_impl.rs", "emit_name": "MachineState_compare_term_test",
+         "rewrites": ["strip_head", "name_return", ("for_to_while_let", "iter_"),
+                      ("replace", "ParallelHeapIter::from(self, h1, h2)", "TermPairs::from(self, h1, h2)", "R7")],
+         "wrap_pre": "impl MachineState {\n#[verifier::exec_allows_no_decreases_clause]\n#[verifier::loop_isolation(false)]\n", "wrap_post": "}\n"},
+        {"fn": "eq_test", "impl": r"impl MachineState", "file": "src/machine/machine_state_impl.rs", "emit_name": "MachineState_eq_test",
+         "rewrites": ["strip_head", "name_return"],
+         "wrap_pre": "impl MachineState {\n", "wrap_post": "}\n"},
     ],
 }
